@@ -55,6 +55,16 @@ def write_overlay(path):
     return repl
 
 
+def cover_args():
+    """development aid (bin/coverage): with VERIF_COVER_DIR set the harness is built with coverage counters for the
+    product packages and every worker leaves its counters in that directory"""
+    d = os.environ.get("VERIF_COVER_DIR")
+    if not d:
+        return []
+    os.makedirs(d, exist_ok=True)
+    return ["-test.gocoverdir=" + d]
+
+
 def build_harness(wd, pkg="./internal/verifharness/engine/", name="engine.test"):
     """go test -c with the overlay, against whatever is in /repo right now."""
     ov = os.path.join(wd, "overlay.json")
@@ -70,8 +80,21 @@ def build_harness(wd, pkg="./internal/verifharness/engine/", name="engine.test")
         lockfh = open(os.path.join(VERIF, ".work", "repo.lock"), "w")
         fcntl.flock(lockfh, fcntl.LOCK_SH)
     try:
-        p = subprocess.run(["go", "test", "-c", "-vet=off", "-tags", "verif", "-overlay", ov, "-o", out, pkg],
-                           cwd=REPO, env=GOENV, capture_output=True, text=True)
+        if os.environ.get("VERIF_COVER_DIR"):
+            # development aid: the cover tool does not read overlay files, so the harness sources are copied into a
+            # scratch copy of the working tree (outside /repo and /verif) and the build runs there
+            scratch = os.environ["VERIF_COVER_DIR"].rstrip("/") + "_tree"
+            subprocess.run(["rsync", "-a", "--delete", "--exclude", ".git", REPO + "/", scratch + "/"], check=True)
+            for dst, src in write_overlay(ov).items():
+                d2 = os.path.join(scratch, os.path.relpath(dst, REPO))
+                os.makedirs(os.path.dirname(d2), exist_ok=True)
+                shutil.copy(src, d2)
+            p = subprocess.run(["go", "test", "-c", "-vet=off", "-tags", "verif", "-cover",
+                                "-coverpkg=github.com/mimiro-io/datahub/internal/...", "-o", out, pkg],
+                               cwd=scratch, env=GOENV, capture_output=True, text=True)
+        else:
+            p = subprocess.run(["go", "test", "-c", "-vet=off", "-tags", "verif", "-overlay", ov, "-o", out, pkg],
+                               cwd=REPO, env=GOENV, capture_output=True, text=True)
     finally:
         if lockfh:
             lockfh.close()
@@ -263,7 +286,7 @@ def replay(binary, wd, tlc_out, tables="plain", adapters="go", workers=None, per
                    VERIF_PER_WORLD=str(per_world), VERIF_ROTATE="1" if rotate else "0", VERIF_SEED=str(seed))
         env.update({k: val.replace("{i}", str(i)).replace("{wd}", wd) for k, val in (extra_env or {}).items()})
         lf = open(os.path.join(wd, f"{label}_{i}.log"), "w")
-        p = subprocess.Popen([binary, "-test.run", "^%s$" % test, "-test.timeout", "0"], env=env, stdout=lf,
+        p = subprocess.Popen([binary, "-test.run", "^%s$" % test, "-test.timeout", "0"] + cover_args(), env=env, stdout=lf,
                              stderr=subprocess.STDOUT, cwd=wd)
         procs.append((p, res, lf, d))
     summaries, results, crashes = [], [], []
